@@ -53,7 +53,17 @@ claim("C20", "effect/ownership analysis per method with operands as shared memor
       STDNOTE,
       "DESIGN.md §3 E1, §4 C20")
 
+claim("C19", "struct-literal field agreement, path-condition truth tables over enumerated CFG paths, lock-set dataflow, fan-out/ordering rules on goroutine closures, must-exit path rule for main, scanner-limit and counter rules",
+      "Decides for all file sets, flags and -tasks values: matches are copied field-for-field into the report for the same element; a match is recorded iff headers or MatchType != Header; the shared result list is only touched under the exclusive lock; each file spawns exactly one task with its own name after taking a token, the token is returned before completion is signalled and channels are closed only after the wait; exit status 0 is reachable only with at least one result; the line re-reader is not limited to 64 KiB lines and accumulates exactly lines startLine..endLine. Output formatting/ordering is not decided.",
+      STDNOTE,
+      "DESIGN.md §4 C19")
+
+claim("C08", "error-flow path analysis (first effect on every other-error path), EOF-classifier shape test, delegation/pass-through rules, single-consumer rule, carry-over and decoder-window dataflow rules",
+      "Decides for all inputs, fragmentations and failure offsets: a non-EOF reader error is returned (nil document / zero Results) before any other effect in tokenizeStream and match, and passed through by MatchFrom; end of input is decided only by comparing the error with io.EOF/io.ErrUnexpectedEOF; Match is MatchFrom over a bytes.Reader; the reader is consumed only through io.ReadFull; the next read continues exactly after the copied leftover bytes; the decoder is not capped at the window. Buffer index arithmetic beyond these clauses is not decided.",
+      STDNOTE,
+      "DESIGN.md §3 E8, §4 C08")
+
 _pending = "check not built yet in this round (planned: see DESIGN.md §4); not claimed until its rules run against /repo"
-for _id in ["C01","C02","C05","C06","C08","C11","C15","C17","C19"]:
+for _id in ["C01","C02","C05","C06","C11","C15","C17"]:
     na(_id, _pending)
 na("C07", "quantifies over the numeric behaviour of the sliding-window density, offset clamping and error-margin fusion at document edges; no clause of it is visible in the shape of the code and any proxy would be a frozen fragment (DESIGN.md §4 C07)")
